@@ -22,7 +22,7 @@ const (
 	kH2
 	kH3
 	kH4
-	kP  // short paragraph (one sentence, 3 words)
+	kP  // short paragraph: one word without punctuation at even positions of a page, a 3-word sentence at odd ones
 	kLP // paragraph several times the maximum chunk size
 	kIP // list-intro paragraph (ends with a colon)
 	kFL // flat list, 3 items
@@ -152,8 +152,14 @@ func build(s docSpec) *built {
 				var text string
 				switch k {
 				case kP:
-					info.toks = g.words(3)
-					text = strings.Join(info.toks, " ") + "."
+					if ei%2 == 0 {
+						// a one-word paragraph without punctuation
+						info.toks = g.words(1)
+						text = info.toks[0]
+					} else {
+						info.toks = g.words(3)
+						text = strings.Join(info.toks, " ") + "."
+					}
 				case kIP:
 					info.toks = g.words(2)
 					text = strings.Join(info.toks, " ") + ":"
